@@ -315,7 +315,7 @@ TIntro ==
            /\ Ev.seq.metaafter = Ev.imeta /\ Ev.seq.meta2 = Ev.imeta
            /\ Ev.seq.hdrs1 = Ev.ipages /\ Ev.seq.hdrs2 = Ev.ipages /\ Ev.seq.hdrs3 = Ev.ipages /\ Ev.seq.hdrs1again = Ev.ipages)
   \* the independent walk itself agrees with what the writer was observed to emit
-  /\ Chk("HARNESS", "WalkMatchesSink", Len(Ev.ipages) = Cardinality(HdrIdxOf(snk)))
+  /\ Chk("HARNESS", "WalkMatchesSink", Ev.foreign \/ Len(Ev.ipages) = Cardinality(HdrIdxOf(snk)))
   /\ UNCHANGED <<caseId, schema, cols, maxPage, codecN, recs, batches, snk, wc, faultK, rowsTab, clean>>
 
 \* schedule replay (C13): instances under a prescribed interleaving versus their solo runs
